@@ -105,6 +105,56 @@ theorem C08_oracle_sound {many one : List Rec}
     many.Pairwise (fun a b => a.frame < b.frame) ∧ Consec Apart many ∧ many.map key = one.map key :=
   ⟨increasing_none_pairwise hi, (noOverlap_none_iff many).1 ho, (firstMismatch_none_iff many one).1 hm⟩
 
+theorem firstSome_cons_some {α} (x : α) (xs : List α) (f : α → Option String) (e : String) (hx : f x = some e) :
+    Pipe.firstSome (x :: xs) f = some e := by
+  unfold Pipe.firstSome
+  simp only [List.foldl_cons, hx]
+  induction xs with
+  | nil => rfl
+  | cons y ys ih => simpa [List.foldl_cons] using ih
+
+theorem firstSome_cons_none {α} (x : α) (xs : List α) (f : α → Option String) (hx : f x = none) :
+    Pipe.firstSome (x :: xs) f = Pipe.firstSome xs f := by
+  unfold Pipe.firstSome
+  simp only [List.foldl_cons, hx]
+
+/-- the per-channel fold answers `none` exactly when every element's answer is `none` -/
+theorem firstSome_none_iff {α} (xs : List α) (f : α → Option String) :
+    Pipe.firstSome xs f = none ↔ ∀ x ∈ xs, f x = none := by
+  induction xs with
+  | nil => simp [Pipe.firstSome]
+  | cons x xs ih =>
+    simp only [List.mem_cons, forall_eq_or_imp]
+    cases hx : f x with
+    | none => rw [firstSome_cons_none x xs f hx]; simpa using ih
+    | some e => rw [firstSome_cons_some x xs f e hx]; simp
+
+/-- THE WHOLE JUDGE: when `chkC08` accepts a case without mid-stream requests that carries the one-block run,
+then for EVERY channel the many-block records have pairwise increasing frames, equal the one-block records
+element by element, and — in variable-length mode — consecutive records are apart -/
+theorem chkC08_sound (c : Pipe.Case) (outs one : List Pipe.Out) (h : chkC08 c outs = none)
+    (hr : midRequests c.ops false = false) (h1 : c.outsOne = some one) (ch : Nat) (hch : ch < c.nch) :
+    (recsOf outs ch).Pairwise (fun a b => a.frame < b.frame) ∧
+      (recsOf outs ch).map key = (recsOf one ch).map key ∧
+      (variableOnly c = true → Consec Apart (recsOf outs ch)) := by
+  unfold chkC08 at h
+  simp only [hr, h1] at h
+  have hc := (firstSome_none_iff _ _).1 h ch (List.mem_range.2 hch)
+  simp only [Bool.false_eq_true, if_false, Bool.not_false, Bool.and_true] at hc
+  cases hi : increasing (recsOf outs ch) with
+  | some e => simp [hi] at hc
+  | none =>
+    simp only [hi] at hc
+    by_cases hv : variableOnly c = true
+    · simp only [hv, if_true] at hc
+      cases ho : noOverlap (recsOf outs ch) with
+      | some e => simp [ho] at hc
+      | none =>
+        simp only [ho, Option.map_eq_none_iff] at hc
+        exact ⟨increasing_none_pairwise hi, (firstMismatch_none_iff _ _).1 hc, fun _ => (noOverlap_none_iff _).1 ho⟩
+    · simp only [hv, Bool.false_eq_true, if_false, Option.map_eq_none_iff] at hc
+      exact ⟨increasing_none_pairwise hi, (firstMismatch_none_iff _ _).1 hc, fun hv' => absurd hv' hv⟩
+
 /-- non-vacuity: two records that touch but do not overlap, the second run's time stamps differ -/
 example :
     let a : Rec := ⟨10, 111, 2, [1, 2, 3, 4], false⟩
